@@ -1,5 +1,6 @@
-from typing import Any
+from typing import Any, Optional
 
+import pyarrow as pa
 
 from mloda.core.abstract_plugins.components.data_types import DataType
 
@@ -56,6 +57,29 @@ class DataTypeValidator:
 
         return False
 
+    @staticmethod
+    def _arrow_schema(data: Any) -> Optional[pa.Schema]:
+        """Arrow schema of the produced data, also for compute frameworks whose data is not a PyArrow table."""
+        schema = getattr(data, "schema", None)
+        if isinstance(schema, pa.Schema):
+            return schema
+
+        try:
+            import pandas as pd
+
+            if isinstance(data, pd.DataFrame):
+                return pa.Schema.from_pandas(data, preserve_index=False)
+        except ImportError:
+            pass
+
+        if isinstance(data, list) and data and all(isinstance(row, dict) for row in data):
+            try:
+                return pa.Table.from_pylist(data).schema
+            except (pa.ArrowInvalid, pa.ArrowTypeError):
+                return None
+
+        return None
+
     @classmethod
     def validate(cls, data: Any, features: Any, strict_only: bool = False) -> None:
         """Validate that data columns match declared feature types.
@@ -68,15 +92,19 @@ class DataTypeValidator:
         """
         from mloda_plugins.feature_group.experimental.default_options_key import DefaultOptionKeys
 
+        schema = cls._arrow_schema(data)
+        if schema is None:
+            return
+
         for feature in features.features:
             if feature.data_type is None:
                 continue
 
             col_name = feature.get_name()
-            if col_name not in data.column_names:
+            if col_name not in schema.names:
                 continue
 
-            arrow_type = data.schema.field(col_name).type
+            arrow_type = schema.field(col_name).type
 
             try:
                 actual_type = DataType.from_arrow_type(arrow_type)
